@@ -67,6 +67,21 @@ def step (s : St) (ws : List String) : St × String :=
     else (s, "bad-op")
   | ["gen"] => let (p', b) := generate p; (noteBatch { s with p := some p' } b, showOpt b)
   | "commit" :: hs => ({ s with p := some (commit p hs) }, "ok")
+  | ["commitready", j] =>
+    -- a block of another leader: the first ready transaction (priority order) that is not batched here, whose account has
+    -- nothing batched here and whose nonce is the account's committed nonce, and its ready successors (at most j in all)
+    let busy := p.batched.map (·.1)
+    let commitOf (a : String) : Nat := match KV.get p.commitN a with | some n => n | none => KV.getD p.ledger a 0
+    match (sortPrio p.priority).find? (fun k => !busy.contains k.2.1 && k.2.2 == commitOf k.2.1) with
+    | none => (s, "none")
+    | some k =>
+      let hs := (List.range (j.toNat?.getD 1)).foldl (fun (acc : List String × Bool) i =>
+        if acc.2 then acc else
+        match KV.get p.items (k.2.1, k.2.2 + i) with
+        | some tx => if (tx.ts, k.2.1, k.2.2 + i) ∈ p.priority then (acc.1 ++ [tx.hash], false) else (acc.1, true)
+        | none => (acc.1, true)) ([], false)
+      if hs.1.isEmpty then (s, "none") else
+      ({ s with p := some (commit p hs.1) }, "ok " ++ ",".intercalate hs.1)
   | "commitlast" :: rest =>
     match s.batches with
     | [] => (s, "nobatch")
